@@ -205,7 +205,9 @@ def project(pid, op, group, canon, ctx):
         if cmd == "snapshot":
             return strip_targets(c(res))
         if cmd in STRUCT_SINGLE or cmd in BATCH:
-            return status(res)
+            # what a listener reads about the event's entity when the event is delivered
+            seen = sorted(" ".join(c(e).split()[1:3]) + " " + m.group(0) for e in evs for m in [re.search(r"V\[.*\]$", c(e))] if m)
+            return status(res) + ("\n" + "\n".join(seen) if seen else "")
         if cmd == "inv":
             return "~" + res
         return None
